@@ -272,6 +272,39 @@ pub struct Dynamic {
     pub faults: bool,
 }
 
+/// Applies one valid template to solver and model; queries are checked against the reference
+/// but a panic inside the solver propagates to the caller (used by the fault-injection check).
+pub fn apply_valid(s: &mut Box<dyn Dyn>, m: &mut Model, op: &OpT, kind: DynKind) -> Result<(), Failure> {
+    let step = match resolve(op, m, kind) {
+        Some(s) => s,
+        None => return Ok(()),
+    };
+    let fail = |what: &str, e: String| Failure::new(format!("C17/lib-dynamic/{:?}/{}-error", kind, what), e);
+    match step {
+        Step::NewArg(l) => {
+            s.new_argument(l);
+            m.live.insert(l);
+        }
+        Step::RemArg(l) => {
+            s.remove_argument(&l).map_err(|e| fail("remove_argument", e.to_string()))?;
+            m.live.remove(&l);
+            m.atts.retain(|(a, b)| *a != l && *b != l);
+        }
+        Step::NewAtt(a, b) => {
+            s.new_attack(&a, &b).map_err(|e| fail("new_attack", e.to_string()))?;
+            m.atts.insert((a, b));
+        }
+        Step::RemAtt(a, b) => {
+            s.remove_attack(&a, &b).map_err(|e| fail("remove_attack", e.to_string()))?;
+            m.atts.remove(&(a, b));
+        }
+        Step::DC(a, cert) => Dynamic { faults: false }.query_inner(s, m, kind, a, true, cert, "", false)?,
+        Step::DS(a, cert) => Dynamic { faults: false }.query_inner(s, m, kind, a, false, cert, "", false)?,
+        _ => {}
+    }
+    Ok(())
+}
+
 impl Dynamic {
     fn pid(&self) -> &'static str {
         if self.faults {
@@ -291,6 +324,21 @@ impl Dynamic {
         cert: bool,
         ctx: &str,
     ) -> CheckResult {
+        self.query_inner(s, m, kind, a, cred, cert, ctx, true)
+    }
+
+    #[allow(clippy::too_many_arguments)]
+    pub fn query_inner(
+        &self,
+        s: &mut Box<dyn Dyn>,
+        m: &Model,
+        kind: DynKind,
+        a: usize,
+        cred: bool,
+        cert: bool,
+        ctx: &str,
+        guarded: bool,
+    ) -> CheckResult {
         let (g, live) = m.graph();
         let fams = Fams::new(&g);
         let (cs, ss) = kind.sems();
@@ -301,7 +349,7 @@ impl Dynamic {
         let expected = if cred { oracle::dc(&exts, bit) } else { oracle::ds(&exts, bit) };
         let qn = if cred { "DC" } else { "DS" };
         let sig = format!("{}/{:?}/{}-{}{}", self.pid(), kind, qn, sem.name(), ctx);
-        let r = guard(|| {
+        let run_it = |s: &mut Box<dyn Dyn>| {
             if cert {
                 let (b, c) = if cred {
                     s.is_credulously_accepted_with_certificate(&a)
@@ -314,7 +362,8 @@ impl Dynamic {
             } else {
                 (s.is_skeptically_accepted(&a), None)
             }
-        });
+        };
+        let r = if guarded { guard(|| run_it(s)) } else { Ok(run_it(s)) };
         let (got, certv) = match r {
             Err(p) => return Err(Failure::new(format!("{}/panic", sig), format!("query on {} panicked: {}", a, p))),
             Ok(x) => x,
@@ -375,7 +424,7 @@ impl Dynamic {
     }
 }
 
-fn op_strategy(faults: bool) -> BoxedStrategy<OpT> {
+pub fn op_strategy(faults: bool) -> BoxedStrategy<OpT> {
     let valid = prop_oneof![
         18 => any::<u16>().prop_map(OpT::NewArg),
         7 => any::<u16>().prop_map(OpT::RemArg),
